@@ -108,7 +108,7 @@ def run_case(case, R):
                     # promptness after a disconnect of the connection that carried it
                     wc = r.get("written_conn")
                     for (dt, ci, cause) in disconnects:
-                        if wc == ci and dt >= r["issued"]:
+                        if wc == ci and dt >= r.get("written_at", r["issued"]) - EPS:
                             R.fail("C08.request-hangs", f"{where}: request {rid} still outstanding after {cause} of its connection at t={dt}", how=cause)
             # events: only to listeners, each once, in order, unless the connection went away before delivery
             got_vals = [list(e.values())[0].get("value") for e in events_got if e]
@@ -211,8 +211,9 @@ def run_case(case, R):
                         for rid, r in reqs.items():
                             if not r["task"].done() or r["done_at"] is None:
                                 wc = r.get("written_conn")
-                                if wc is not None and r["issued"] + 30 <= loop.time() + EPS and r["issued"] + 30 > before - EPS:
-                                    disconnects.append((r["issued"] + 30, wc, "timeout"))
+                                wa = r.get("written_at")
+                                if wc is not None and wa is not None and wa + 30 <= loop.time() + EPS and wa + 30 > before - EPS:
+                                    disconnects.append((wa + 30, wc, "timeout"))
                     else:
                         raise AssertionError(name)
               except Pruned:
